@@ -20,6 +20,7 @@ type Vector struct {
 	ID      int      `json:"id"`
 	Harness string   `json:"harness"`
 	Vals    []string `json:"vals"` // decimal uint64
+	Labels  []string `json:"labels,omitempty"` // label prefixes selected by the check
 }
 
 type Result struct {
@@ -61,6 +62,7 @@ type vpVecIn struct {
 	ID      int      ` + "`json:\"id\"`" + `
 	Harness string   ` + "`json:\"harness\"`" + `
 	Vals    []string ` + "`json:\"vals\"`" + `
+	Labels  []string ` + "`json:\"labels\"`" + `
 }
 
 type vpResOut struct {
@@ -115,6 +117,7 @@ func TestVPReplay(t *testing.T) {
 		for i, s := range v.Vals {
 			vals[i], _ = strconv.ParseUint(s, 10, 64)
 		}
+		vpSelLabels = v.Labels
 		st, det := vpRunOne(fn, vals)
 		b, _ := json.Marshal(vpResOut{ID: v.ID, Status: st, Detail: det, Obs: vpObsOut})
 		fmt.Fprintf(out, "%s\n", b)
